@@ -158,6 +158,31 @@ def check_case(ld, n, k, backing, all_i, res):
                     res.violation('shard-serves-foreign-key', {**case, 'part': pi,
                                                                'key': kk}, {'got': got})
                     break
+    # deriving other datasets from a shard (a per-epoch shuffle, a sorted view,
+    # a sample) leaves the shard as it is
+    if (n0 + k) % 2 == 0:
+        import numpy as np
+        for pi in sorted({0, len(parts) - 1}):
+            p = parts[pi]
+            try:
+                p.shuffle(rng=np.random.RandomState(1))
+                list(p.shuffle(rng=np.random.RandomState(2)))
+                p.sort(lambda x: -x)
+                p[::-1]
+                if len(p):
+                    p.random_choice(1, rng_state=np.random.RandomState(3))
+                p.copy()
+            except BaseException as e:
+                res.violation('shard-derivation-raised', {**case, 'part': pi}, exc_sig(e))
+                break
+            res.count('shards_rechecked_after_deriving')
+            now = list(p)
+            if now != lists[pi] or (keys is not None and
+                                    [int(kk[1:]) for kk in p.keys()] != lists[pi]):
+                res.violation('order-not-preserved', {**case, 'part': pi,
+                                                      'after': 'deriving a shuffled / sorted view'},
+                              {'shard_now': now[:12], 'shard_before': lists[pi][:12]})
+                break
     # shard(k, i) == split(k)[i]
     if n <= all_i:
         idx = list(range(k)) + [-1]
